@@ -5,6 +5,7 @@
 package reg
 
 import (
+	"sync"
 	"io"
 	hclog "github.com/hashicorp/go-hclog"
 	"context"
@@ -248,6 +249,9 @@ func Run(bh Behaviour, seed int64) ([]Line, error) {
 			r.step(op, &ln)
 		}()
 		ln.Writes = w.Rec.Writes(mark)
+		if v, ok := ln.Obs["ownWrites"].(int); ok {
+			ln.Writes = v // the step ran next to another, harness-made call and counted the judged call's writes itself
+		}
 		ln.Post = r.state()
 		lines = append(lines, ln)
 	}
@@ -780,6 +784,68 @@ func (r *run) submit(op map[string]any, ln *Line) {
 		nodeenrollment.WithNotBeforeClockSkew(time.Duration(num(op, "sknb"))*gridUnit),
 		nodeenrollment.WithNotAfterClockSkew(time.Duration(num(op, "skna"))*gridUnit),
 	)
+	if s(op, "api") == "authorize" && b(op, "during") {
+		// the (invalid) request is submitted while a VALID authorisation of the same node is in flight, held up at its
+		// storage write; what the valid call registers is not the judged call's doing and is undone afterwards
+		validReq, err := w.BuildFetch(world.FetchSpec{K: fs.K, E: fs.E, Nonce: fs.Nonce})
+		if err != nil {
+			panic(err)
+		}
+		parked, release, vdone := make(chan struct{}), make(chan struct{}), make(chan struct{})
+		var once sync.Once
+		fired := false
+		w.Rec.Gate = func(o world.OpRec) {
+			if o.Op == "Store" && o.Type == "NodeInformation" {
+				hit := false
+				once.Do(func() { hit = true })
+				if hit {
+					fired = true
+					close(parked)
+					<-release
+				}
+			}
+		}
+		go func() {
+			defer close(vdone)
+			_, _ = registration.AuthorizeNode(w.Ctx, w.Store, validReq, w.Opts()...)
+		}()
+		select {
+		case <-parked:
+		case <-vdone:
+		case <-time.After(3 * time.Second):
+		}
+		mark := w.Rec.Mark()
+		idone := make(chan error, 1)
+		go func() {
+			_, err := registration.AuthorizeNode(w.Ctx, w.Store, req, opts...)
+			idone <- err
+		}()
+		var ierr error
+		got := false
+		select {
+		case ierr = <-idone:
+			got = true
+		case <-time.After(500 * time.Millisecond):
+		}
+		ln.Obs["ownWrites"] = w.Rec.Writes(mark)
+		ln.Obs["parked"] = fired
+		close(release)
+		<-vdone
+		if !got {
+			// the judged call did not return while the other one was held up
+			ierr = <-idone
+			ln.Obs["waitedForTheOther"] = true
+		}
+		w.Rec.Gate = nil
+		if fired {
+			_ = w.Inner.Remove(w.Ctx, &types.NodeInformation{Id: w.EnsureCertKey(fs.K).KeyId})
+		}
+		if ierr != nil {
+			ln.Err = ierr.Error()
+		}
+		ln.Res = okErr(ierr)
+		return
+	}
 	if s(op, "api") == "authorize" {
 		_, err := registration.AuthorizeNode(w.Ctx, w.Store, req, opts...)
 		if err != nil {
